@@ -270,7 +270,9 @@ def wl_readonly(tier, seed):
     fast = out[2::3]
     rest = [x for i, x in enumerate(out) if i % 3 != 2]
     return [("readonly", rest, dict(per_tlc=6, tlc_jobs=8, max_slots=300)),
-            ("readonly_fast", fast, dict(per_tlc=6, tlc_jobs=8, max_slots=300, profile="fast"))]
+            ("readonly_fast", fast, dict(per_tlc=6, tlc_jobs=8, max_slots=300, profile="fast")),
+            # lookups followed by updates of the same chain: what a lookup remembers must not change what the updates do
+            ("reloc", reloc_batch(seed + 6, 3 if tier == "quick" else 12, 100 if tier == "quick" else 300, base=400), dict(per_tlc=1, tlc_jobs=3 if tier == "quick" else 6))]
 
 
 def wl_twice(tier, seed):
@@ -282,7 +284,7 @@ def wl_twice(tier, seed):
         nb = rng.choice([("BucketsSize", 1), ("BucketsSize", 16), ("BucketsSize", 32), ("BucketsSize", 64), ("Capacity", 100), ("BucketsSize", 1024)])
         bufs = None if i % 2 == 0 else [rng.choice(gen.BUF_PARAMS) for _ in range(3)]
         out.append(gen.gen_twice(seed * 1000 + 900 + i, idbase=i * IDSTEP, nops=nops, nb=nb, kt=gen.KTS[i % 5], bufs=bufs, name="twice_%d" % i,
-                                 nkeys=20 if i % 2 else 3, tail=(i % 4 == 0), same_process=(i % 3 == 1)))
+                                 nkeys=20 if i % 2 else 3, tail=(i % 4 == 0), same_process=(i % 3 == 1), interleaved=(i % 4 == 3)))
     return [("twice", out, dict(per_tlc=2 if tier == "quick" else 5, tlc_jobs=8, max_slots=300))]
 
 
@@ -432,7 +434,7 @@ PLANS = {
     "C10": dict(attr=["C10.", "C14.bulk_get", "C14.bulk_delete", "C01.result", "C04.items", "C05.content", "C05.nodup", "C02.content", "C01.outcome"], mc=lambda t: [_mc("MCCodec.tla", "MCCodec.cfg", workers=2)], workloads=wl_conv, assumptions=COMMON_ASSUME),
     "C07": dict(attr=["C07.", "C01.", "C02.content", "C04."], mc=lambda t: mc_buf(t) + MC_LAYOUT("quick") + [_mc("MCScan.tla", "MCScan_all8.cfg"), _mc("MCScan.tla", "MCScan_n32.cfg")], workloads=wl_params, assumptions=COMMON_ASSUME),
     "C11": dict(attr=["C11.", "C01.result", "C01.outcome", "C04.", "C02.content"], mc=lambda t: mc_db(t), proofs=["AbyRegProofs.tla"], workloads=wl_multi, assumptions=COMMON_ASSUME),
-    "C15": dict(attr=["C15.", "C02.content"], mc=lambda t: MC_STORE_Q + [_mc("MCScan.tla", "MCScan_all8.cfg"), _mc("MCScan.tla", "MCScan_n32.cfg")], workloads=wl_readonly, assumptions=COMMON_ASSUME),
+    "C15": dict(attr=["C15.", "C02.content", "C05.content", "C05.count"], mc=lambda t: MC_STORE_Q + [_mc("MCScan.tla", "MCScan_all8.cfg"), _mc("MCScan.tla", "MCScan_n32.cfg")], workloads=wl_readonly, assumptions=COMMON_ASSUME),
     "C18": dict(attr=["C18."], mc=lambda t: MC_STORE_Q, workloads=wl_twice, assumptions=COMMON_ASSUME),
     "C02": dict(attr=["C02.", "C01.result", "C01.outcome", "C05.content"], mc=lambda t: mc_buf(t) + mc_db(t), workloads=wl_reopen, assumptions=COMMON_ASSUME),
     "C03": dict(attr=["C03."], mc=lambda t: mc_buf(t, "pinned"), proofs=["AbyBufProofs.tla"], workloads=wl_sync, assumptions=COMMON_ASSUME),
